@@ -20,7 +20,7 @@ func init() { register(c12{}) }
 
 func (c12) ID() string { return "C12" }
 func (c12) Cases(t fw.Tier) int {
-	return tierN(t, 6000, 300000)
+	return tierN(t, 50000, 1500000)
 }
 func (c12) Processes(t fw.Tier) int { return tierN(t, 2, 4) }
 func (c12) Rule() string {
